@@ -119,6 +119,11 @@ func (h *EntryHandler) Handle(ctx context.Context, q *dns.Msg, serverMeta server
 	// add respOpt back to resp
 	if respOpt := qCtx.RespOpt(); respOpt != nil {
 		resp.Extra = append(resp.Extra, respOpt)
+	} else if resp.Rcode > 0xF {
+		// The client did not use EDNS0. An extended rcode (from an upstream
+		// that answered our EDNS0 query) needs an OPT record and cannot be packed
+		// without one: the client would get no reply at all.
+		resp.Rcode = dns.RcodeServerFailure
 	}
 
 	if serverMeta.FromUDP {
